@@ -10,9 +10,9 @@ RULE = ("the C01 case set (complete small layer + seeded-random documents x guid
         "[n] and as bare key, and every slice bound pair in -9..9 (361 pairs), on sequences of length 0..4 (root, nested under a key, "
         "and Array-of-Hashes slices followed by a key).  Direct check on every query (required, exists, optional, dot and slash "
         "notation): the exception type escaping Processor.get_nodes()/exists() is in the YAMLPathException family (10 s timeout "
-        "per query counts as a violation).  Additionally 20 000 (thorough: 300 000) seeded-random collector paths "
+        "per query counts as a violation).  Additionally 12 000 (thorough: 300 000) seeded-random collector paths "
         "(1-3 operands joined by + - &, optional trailing segment) whose operands select scalars only are checked the same way "
-        "(collectors are outside the Lean model; crashes with non-scalar operands are counted, not judged), and 20 000 (300 000) "
+        "(collectors are outside the Lean model; crashes with non-scalar operands are counted, not judged), and 12 000 (300 000) "
         "document-guided paths holding one keyword segment (unique/distinct/min/max/has_child/name/parent; modelled by C13, here only the "
         "exception type is checked).  Correspondence: the error class equals the Lean model's.  "
         "distinct_nontrivial = distinct (document, path) whose required query returns at least one node.")
@@ -59,7 +59,7 @@ def run(chk: core.Check):
     # collectors: outside the evaluator model; the exception type of the real queries is checked directly
     import random as _r
     rng = _r.Random(chk.seed + 15)
-    ncoll = 20000 if chk.tier == "quick" else 300000
+    ncoll = 12000 if chk.tier == "quick" else 300000
     cc = []
     for _ in range(ncoll):
         d = ev.random_doc(rng, rng.choice([6, 10, 15]))
@@ -75,7 +75,7 @@ def run(chk: core.Check):
             chk.violation(sig, w, case)
     # keyword segments: modelled by C13; here only the exception type of the real queries is checked
     kk = []
-    nkw = 20000 if chk.tier == "quick" else 300000
+    nkw = 12000 if chk.tier == "quick" else 300000
     for _ in range(nkw):
         d = ev.random_doc(rng, rng.choice([6, 10, 15]))
         items = ev.guided_path(rng, d, 3)
